@@ -241,3 +241,16 @@ Proof.
     vm_compute. reflexivity.
   - vm_compute in Ev. inversion Ev; subst v. vm_compute in Ee. discriminate.
 Qed.
+
+(* Every feature vector over the WHOLE FeatureBit (uint16) index range round-trips:
+   a set of bits, all < 65536, is a number n < 2^65536 = 256^8192 (take k = 8192);
+   its wire form feat_of_N k n (minimal big-endian bytes, at most 8192 of them,
+   denoting n) is a valid value, and Decode (Encode v ++ rest) = (v, rest).  In
+   particular the 8192-byte vectors with a bit in 65528..65535 set must decode. *)
+Theorem C10_feature_vector_roundtrip : forall on_curve k n r,
+  N.of_nat k <= 8192 -> n < 256 ^ N.of_nat k ->
+  valid_f on_curve FFeat (VB (feat_of_N k n)) = true /\ be_dec (feat_of_N k n) = n /\
+  blen (feat_of_N k n) <= 8192 /\
+  exists e, enc_f FFeat (VB (feat_of_N k n)) = Some e /\
+            dec_f on_curve FFeat (e ++ r) = Some (VB (feat_of_N k n), r).
+Proof. exact feature_vector_roundtrip. Qed.
